@@ -10,10 +10,62 @@ def plan(b):
         for bi, blk in enumerate(b.get(blk_kind, [])):
             for ci in range(len(hitx.candidates(blk["N"], blk.get("kinds", hitx.KINDS)))):
                 units.append((blk_kind, bi, ci))
+    if b.get("streams") in STRETCH and not b.get("no_stretch"):
+        for si, blk in enumerate(STRETCH[b["streams"]]):
+            for ci in range(len(hitx.candidates(STRETCH_N, blk["kinds"]))):
+                units.append(("stretch", b["streams"], si, ci))
     if b.get("streams"):
         for u in streams.plan(b["streams"], lite=b.get("streams_lite", 0), fams=b.get("stream_families")):
             units.append(("stream", u))
     return units
+
+
+# Stretched configurations: the N+1 boundary points of a small configuration are mapped to offsets whose gaps are 1 or BIG bytes (every
+# assignment of gaps, at most `max_big` of them BIG), so the SAME hit configurations are replayed with spans and values that cross a size
+# boundary (4096, 65536, 2^24) while other spans stay 1 byte apart.  The text is a period-7 filler; the reference machine is run on the same text.
+STRETCH_N = 3
+STRETCH = {
+    "quick": [dict(big=5000, kinds=hitx.KINDS + ("dH",), K=2, depths=(2,), modes=("r0", "rp"), max_big=3),
+              dict(big=(1 << 24) + 1, kinds=("p", "q", "d1", "dE"), K=2, depths=(2,), modes=("r0",), max_big=2)],
+    "thorough": [dict(big=5000, kinds=hitx.KINDS + ("dH",), K=2, depths=(1, 2, 3), modes=hitx.MODES, max_big=3),
+                 dict(big=70000, kinds=hitx.KINDS + ("dH",), K=2, depths=(2,), modes=("r0", "rp"), max_big=3),
+                 dict(big=(1 << 24) + 1, kinds=("p", "q", "u", "d1", "dE", "dH", "k"), K=2, depths=(2,), modes=("r0", "rp"), max_big=2)],
+}
+
+
+def stretch_maps(big, max_big):
+    import itertools
+    out = []
+    for gaps in itertools.product((1, big), repeat=STRETCH_N):
+        if 1 <= sum(g == big for g in gaps) <= max_big:
+            pos = [0]
+            for g in gaps:
+                pos.append(pos[-1] + g)
+            out.append((gaps, pos))
+    return out
+
+
+def stretch_text(n):
+    return (b"abcdefg" * (n // 7 + 1))[:n]
+
+
+def run_stretch(rec, clause_total, big, gaps, hits, depth, mode, on_run):
+    pos = [0]
+    for g in gaps:
+        pos.append(pos[-1] + g)
+    T = stretch_text(pos[-1])
+    real = tuple((pos[a], pos[b], k) for a, b, k in hits)
+    size = len(hits) * 100 + sum(g > 1 for g in gaps) * 10 + depth
+    w = {"engine": "hitx-stretch", "big": big, "gaps": list(gaps), "hits": [list(h) for h in hits], "stretched_hits": [list(h) for h in real],
+         "depth": depth, "mode": mode, "text": "(b'abcdefg' * n)[:%d]" % pos[-1]}
+    rec.count("evaluations")
+    ok, run = rec.guard(clause_total, w, size, hitx.execute, T, real, depth, mode, False)
+    if ok:
+        rec.count("traces")
+        rec.count("transitions", run.trace.transitions)
+        for s in run.trace.states:
+            rec.mark("states", s)
+        on_run(rec, run, w, size)
 
 
 SMALL = dict(N=4, K=2, depths=(1, 2), modes=("r0", "rp", "rd"), grouped=(False,))
@@ -64,6 +116,17 @@ def run_unit(unit, rec, b, clause_total, on_run, on_case, stream_depths=(10,)):
                     "depths": list(blk["depths"]), "modes": list(blk["modes"])})
     elif kind == "stream":
         streams.run_unit(unit[1], rec, on_case, depths=stream_depths)
+    elif kind == "stretch":
+        blk = STRETCH[unit[1]][unit[2]]
+        first = hitx.candidates(STRETCH_N, blk["kinds"])[unit[3]]
+        n = 0
+        for hits in hitx.configs_from(first, STRETCH_N, blk["K"], kinds=blk["kinds"]):
+            for gaps, _ in stretch_maps(blk["big"], blk["max_big"]):
+                for depth in blk["depths"]:
+                    for mode in blk["modes"]:
+                        run_stretch(rec, clause_total, blk["big"], gaps, hits, depth, mode, on_run)
+                        n += 1
+        rec.sample({"unit": list(unit), "big": blk["big"], "first_hit": list(first), "stretched_configurations": n})
     elif kind == "small":
         T = hitx.text_for(SMALL["N"], False)
         n = 0
@@ -80,12 +143,19 @@ def run_unit(unit, rec, b, clause_total, on_run, on_case, stream_depths=(10,)):
 
 
 def replay(w, rec, clause_total, on_run, on_case):
-    if w.get("engine") == "hitx":
+    if w.get("engine") == "hitx-stretch":
+        run_stretch(rec, clause_total, w["big"], tuple(w["gaps"]), tuple(tuple(h) for h in w["hits"]), w["depth"], w["mode"], on_run)
+    elif w.get("engine") == "hitx":
         run_config(rec, clause_total, w["T"], tuple(tuple(h) for h in w["hits"]), w["depth"], w["mode"], w["grouped"], on_run)
     elif w.get("engine") == "stream":
         streams.replay(w, rec, on_case)
 
 
+RULE_STRETCH = (
+    "Stretched configurations: every configuration of <= 2 hits over N=3 is replayed with its 4 boundary points mapped to offsets whose gaps are 1 or BIG bytes "
+    "(every assignment with at least one BIG gap; BIG = 5000 with all kinds + dH [unlabelled decoding to half the length], thorough also 70000; BIG = 2^24+1 with kinds p,q,d1,dE "
+    "and at most two BIG gaps, texts up to 32 MiB), so spans, values and span differences cross 4096 / 65536 / 2^24 while neighbouring spans stay one byte apart; same model, same monitors. "
+)
 RULE_PREFIX = (
     "configuration = text of N distinct bytes x ordered list (registry order) of <=K hits, each hit = interval x kind "
     f"{hitx.KINDS} x depth budget x recursion mode {hitx.MODES} x grouping; ALL configurations of each 'full' block are enumerated "
